@@ -15,6 +15,13 @@
 #define VH_PIVOT_STUB_H
 #include "vh.h"
 static const int vh_pivpref[N] = VH_PIVPREF;
+#ifdef VH_PIVPREF2   /* a second preference order, used once vh_pivot_phase is set (re-factorization with different pivots) */
+static const int vh_pivpref2[N] = VH_PIVPREF2;
+int vh_pivot_phase;
+#define VH_PREF(k) (vh_pivot_phase ? vh_pivpref2[k] : vh_pivpref[k])
+#else
+#define VH_PREF(k) vh_pivpref[k]
+#endif
 static int vh_S[N][N];       /* vh_S[i][j]: entry (row i, AC column j) structurally non-zero */
 static int vh_S_ready;
 static int vh_rowdone[N];
@@ -52,7 +59,7 @@ int_t VH_PIVOTL(const int_t pnum, const int_t jcol, const VH_REAL u, yes_no_t *u
     vh_assert(pivptr >= 0 && vh_S[inv_perm_c[jcol]][jcol], "the diagonal row is a structurally non-zero candidate of its column");
 #endif
     for (k = 0; k < N && pivptr < 0; ++k) {
-        r = vh_pivpref[k];
+        r = VH_PREF(k);
         if (vh_rowdone[r] || !vh_S[r][jcol]) continue;
         for (isub = nsupc; isub < nsupr; ++isub) if (lsub_ptr[isub] == r) pivptr = isub;
         vh_assert(pivptr >= 0, "every structurally non-zero unpivoted row of the column is a candidate in the supernode row list");
